@@ -8,6 +8,7 @@ use std::panic;
 use rasn_compiler::prelude::*;
 use serde_json::{json, Value};
 
+mod ir;
 mod ops;
 mod proj;
 
